@@ -82,11 +82,14 @@ None == [none |-> TRUE]
 (* Entry templates.  s is the ordinal of the session the entry refers to   *)
 (* (1 = the first CreateSession of the log, ...); it is resolved to the    *)
 (* session id (= index of the creating entry) when the entry is appended.  *)
-T(kind, cls, s, x) == [kind |-> kind, cls |-> cls, s |-> s, exp |-> x]
+\* ms = MaxSessions of a config entry (0 = unlimited)
+TM(kind, cls, s, x, ms) == [kind |-> kind, cls |-> cls, s |-> s, exp |-> x, ms |-> ms]
+T(kind, cls, s, x) == TM(kind, cls, s, x, 0)
 TCreate   == T("cmd", "create", 0, 0)
 TLine(s)  == T("cmd", "line", s, 0)
 TDelete(s)== T("cmd", "delete", s, 0)
 TConfig(x)== T("cmd", "config", 0, x)
+TLimit(n) == TM("cmd", "config", 0, 0, n)        \* config with MaxSessions = n, expiration unset
 TBadCfg   == T("cmd", "badconfig", 0, 0)
 TPanic(s) == T("cmd", "panic", s, 0)
 TRaft     == T("raft", "none", 0, 0)
@@ -97,11 +100,16 @@ AlphaSess == {TCreate, TLine(1), TLine(2), TDelete(1), TRaft}
 AlphaExp  == {TLine(1), TConfig(1), TConfig(90), TBadCfg}        \* expiration (F3)
 AlphaExpS == {TLine(1), TConfig(1), TConfig(90)}
 AlphaMod  == {TLine(1), TPanic(1), TPanic(2), TCreate, TRaft}    \* C07
+\* session limit: CreateSession entries REFUSED by the state machine (applyRobustMessage
+\* returns ErrSessionLimitReached) are still entries of the irclog and of every fold
+AlphaLim  == {TCreate, TLine(1), TLine(2), TLimit(1), TLimit(2), TRaft}
+AlphaLimS == {TCreate, TLimit(1)}
 AlphaAll  == {TCreate, TLine(1), TLine(2), TDelete(1), TDelete(2), TConfig(1), TConfig(90),
-              TConfig(0), TBadCfg, TPanic(1), TPanic(2), TRaft}
+              TConfig(0), TLimit(1), TLimit(2), TBadCfg, TPanic(1), TPanic(2), TRaft}
 
-E(kind, cls, ts, sess, cmid, x) ==
-    [kind |-> kind, cls |-> cls, ts |-> ts, sess |-> sess, cmid |-> cmid, exp |-> x]
+EM(kind, cls, ts, sess, cmid, x, ms) ==
+    [kind |-> kind, cls |-> cls, ts |-> ts, sess |-> sess, cmid |-> cmid, exp |-> x, ms |-> ms]
+E(kind, cls, ts, sess, cmid, x) == EM(kind, cls, ts, sess, cmid, x, 0)
 \* preludes: one session / one registered session (two effective lines = NICK, USER)
 PreludeNone == << >>
 PreludeSess == << E("cmd", "create", 0, 0, 0, 0) >>
@@ -114,16 +122,16 @@ NthMin(S, n) == IF S = {} THEN 0
                      IN IF n = 1 THEN m ELSE NthMin(S \ {m}, n - 1)
 \* the entry a template stands for when appended at position i with timestamp ts
 Resolve(t, ts, i, L) ==
-    E(t.kind, t.cls, IF t.kind = "raft" THEN 0 ELSE ts,
+    EM(t.kind, t.cls, IF t.kind = "raft" THEN 0 ELSE ts,
       IF t.s = 0 THEN 0 ELSE NthMin(Creates(L), t.s),
       IF t.cls \in {"line", "panic"} THEN i ELSE 0,
-      t.exp)
+      t.exp, t.ms)
 
 ---------------------------------------------------------------------------
 (* The abstract IRC state machine: deterministic and total.                *)
 
 EmptyFn == [x \in {} |-> 0]
-EMPTY == [sess |-> {}, marks |-> {}, marker |-> EmptyFn, rev |-> 0, cexp |-> DefaultExp]
+EMPTY == [sess |-> {}, marks |-> {}, marker |-> EmptyFn, rev |-> 0, cexp |-> DefaultExp, maxs |-> 0]
 
 EffExp(x) == IF x = 0 THEN DefaultExp ELSE x      \* "exp == 0 -> 10 min" in Snapshot()
 
@@ -146,8 +154,10 @@ ApplyAbsL(L, S, i) ==
     IF e.kind = "raft" THEN S
     ELSE IF i \in mod THEN Bump(S, e.sess, e.cmid)        \* MessageOfDeath: marker only
     ELSE CASE e.cls = "create" ->
-                  [S EXCEPT !.sess = @ \cup {i},
-                            !.marker = [t \in S.sess \cup {i} |-> IF t = i THEN 0 ELSE S.marker[t]]]
+                  IF S.maxs > 0 /\ Cardinality(S.sess) >= S.maxs
+                  THEN S                                  \* ErrSessionLimitReached: refused, no effect
+                  ELSE [S EXCEPT !.sess = @ \cup {i},
+                                 !.marker = [t \in S.sess \cup {i} |-> IF t = i THEN 0 ELSE S.marker[t]]]
            [] e.cls = "line" ->
                   IF e.sess \in S.sess
                   THEN [S EXCEPT !.marks = @ \cup {i}, !.marker[e.sess] = e.cmid]
@@ -158,7 +168,7 @@ ApplyAbsL(L, S, i) ==
                                  !.marks = @ \ MarksOfL(L, S, e.sess),
                                  !.marker = [t \in S.sess \ {e.sess} |-> S.marker[t]]]
                   ELSE S
-           [] e.cls = "config" -> [S EXCEPT !.rev = i, !.cexp = e.exp]
+           [] e.cls = "config" -> [S EXCEPT !.rev = i, !.cexp = e.exp, !.maxs = e.ms]   \* the whole config is replaced
            [] e.cls = "badconfig" -> S                    \* re-parsed, invalid, skipped
            [] e.cls = "panic" -> Bump(S, e.sess, e.cmid)  \* unregistered: 451, no panic
            [] OTHER -> S
